@@ -295,6 +295,7 @@ Proof.
   - unfold acc. cbn [fst]. unfold nak_alias_inv. cbn [hs_p hs_alias hs_segs st_p nak_set_start nk_segs]. exact I.
   - unfold acc. cbn [fst]. unfold nak_alias_inv. cbn [hs_p hs_alias hs_segs st_p nak_set_end nk_segs]. exact I.
   - cbn [fst]. exact KEEP.
+  - cbn [fst]. exact KEEP.
 Qed.
 
 (* the operations every directive PDU has never touch the segment requests *)
